@@ -153,3 +153,28 @@ def provenance_options(f, rd, node_id, depth=4):
                             pass
     go(node_id, node_id, depth)
     return out
+
+
+def resolved_conds(f, rd, bid):
+    """guard facts of block bid as (text, polarity), plus - for a fact that is a bool local with a single definition (or its
+    negation) - the fact about the defining expression: `const bool same = a->IsSamePreproc(b); if (!same) return;` yields
+    ('a->IsSamePreproc(b)', True) behind the return"""
+    from .facts import expr_str
+    out = []
+    for cn, pol in f.guard_conds(bid):
+        if cn is None:
+            continue
+        out.append((expr_str(f, cn), pol))
+        n = f.nodes.get(cn)
+        neg = False
+        while n is not None and (n["k"] == "cast" or (n["k"] == "un" and n.get("op") == "!")):
+            if n["k"] == "un":
+                neg = not neg
+            n = f.nodes.get(n["a"][0])
+        if n is not None and n["k"] == "ref" and n.get("d") in ("lv", "pv") and isinstance(pol, bool):
+            defs = rd.at(cn, var_id(n))
+            if len(defs) == 1 and defs[0][0] in ("decl", "asg"):
+                rhs = rd.rhs_of(defs[0])
+                if rhs is not None:
+                    out.append((expr_str(f, rhs), (not pol) if neg else pol))
+    return out
